@@ -67,8 +67,11 @@ def info_for(A):
     rank = int(np.sum(sref > RANK_REL * s1)) if s1 > 0 else 0
     smin = float(sref[rank - 1]) if rank else 0.0
     kappa = s1 / smin if rank else 1.0
+    # a singular value between the noise level of the reference SVD and the rank threshold is neither "zero" nor part
+    # of a well-defined A^+ at working precision: statements about the distance to A^+ are not made for such inputs
+    ambiguous = bool(s1 > 0 and np.any((sref > 1e-13 * s1) & (sref <= RANK_REL * s1)))
     return {"sref": sref, "s1": s1, "rank": rank, "smin": smin, "kappa": kappa, "fro": ref.fro(A),
-            "pinv_norm": (1.0 / smin if rank else 0.0)}
+            "pinv_norm": (1.0 / smin if rank else 0.0), "ambiguous_rank": ambiguous}
 
 
 def model_iterate(A, k, order, gamma):
@@ -86,7 +89,9 @@ def model_iterate(A, k, order, gamma):
         else:
             t = t * (1.0 + gamma * (1.0 - t))
     with np.errstate(divide="ignore", invalid="ignore"):
-        f = np.where(sc > RANK_REL * sc[0], t / sc, 0.0)
+        # only singular values at the noise level of the reference SVD count as zero here: a small but genuine value
+        # (1e-10 relative, say) takes part in the recurrence exactly like the others
+        f = np.where(sc > 1e-13 * sc[0], t / sc, 0.0)
     Xc = (Vch.conj().T * f) @ Uc.conj().T
     return ref.from_chi_c(Xc)
 
@@ -219,6 +224,9 @@ def check_model(case):
         return out
     if not out.true(site + ":X finite", np.all(np.isfinite(X)), "NaN/inf iterate"):
         return out
+    if inf["ambiguous_rank"]:
+        out.label("ambiguous_rank(model comparison skipped)")
+        return out
     model = model_iterate(A, k, order, gamma)
     scale = inf["kappa"] * inf["pinv_norm"] if inf["rank"] else 1.0
     out.le(site + ":k-th iterate follows the spectral recurrence", ref.fro(X - model),
@@ -278,7 +286,7 @@ def stop_cases(draw, tier):
     A, kind = draw(ns_inputs(tier, full_rank_only=draw(st.booleans())))
     order = draw(st.sampled_from([2, 2, 3]))
     gamma = draw(st.sampled_from([1.0, 0.9, 0.75, 0.5])) if order == 2 else 1.0
-    return {"A": A, "kind": kind, "order": order, "gamma": gamma, "tol": 10.0 ** draw(st.integers(-10, -2)),
+    return {"A": A, "kind": kind, "order": order, "gamma": gamma, "tol": 10.0 ** draw(st.integers(-12, -2)),
             "compute_residuals": draw(st.booleans()) if order == 2 else True}
 
 
@@ -289,8 +297,8 @@ def check_stop(case):
     out = Out()
     rank_def = inf["rank"] < min(m, n)
     out.label(case["kind"], f"order={order}", "rank_deficient" if rank_def else "full_rank")
-    if inf["rank"] == 0 or inf["kappa"] > 1e4:
-        out.label("skipped(zero or ill-conditioned)")
+    if inf["rank"] == 0 or inf["kappa"] > 1e4 or inf["ambiguous_rank"]:
+        out.label("skipped(zero, ill-conditioned or a singular value between noise and the rank threshold)")
         return out
     budget = 400 if not rank_def else k_safe(order, gamma)
     site, r = run_solver(out, order, A, gamma, budget, tol, case["compute_residuals"], False)
@@ -304,7 +312,11 @@ def check_stop(case):
     out.label("stopped_on_tol" if stopped else "budget_exhausted")
     if stopped:
         pinv = ref.pinv(A, rtol=RANK_REL)
-        floor = 1e3 * U_ * inf["kappa"] * inf["pinv_norm"] * max(m, n)
+        # rank-deficient inputs: the component of X along the numerically-zero singular directions is rounding noise
+        # that grows by (1+gamma) (resp. 3) per sweep - the same geometric factor as in the model clause
+        gr_ = 3.0 if order == 3 else 1.0 + gamma
+        g_ = ((gr_ ** n_it - 1.0) / (gr_ - 1.0)) if rank_def else 1.0
+        floor = 1e3 * U_ * inf["kappa"] * inf["pinv_norm"] * max(m, n) * g_
         dist = ref.fro(X - pinv)
         if case["compute_residuals"]:
             pen = penrose(A, X)
@@ -317,6 +329,24 @@ def check_stop(case):
             # stopping rule: ||X_prev A - I|| < tol for the PREVIOUS iterate  =>  ||X - A^+|| <= tol / s_min
             out.le(site + ":stopped (covariance rule) implies ||X-A^+|| <= tol/s_min", dist, tol / inf["smin"] + floor,
                    f"tol={tol:g} s_min={inf['smin']:.3e}")
+    if stopped and n_it >= 1:
+        # whatever made the solver stop, the returned X is the n_it-th iterate of the documented recurrence and the last
+        # history entries describe THAT matrix (no extra step, no stale entry on the tolerance exit)
+        gr = 3.0 if order == 3 else 1.0 + gamma
+        g = ((gr ** n_it - 1.0) / (gr - 1.0)) if rank_def else 1.0
+        model = model_iterate(A, n_it, order, gamma)
+        scale = inf["kappa"] * inf["pinv_norm"]
+        out.le(site + ":the returned X is the iterate of the documented recurrence (tolerance exit)", ref.fro(X - model),
+               C_MODEL * U_ * g * scale * max(1, m, n) + 1e-300, f"iterations={n_it} gamma={gamma} tol={tol:g}")
+        if case["compute_residuals"]:
+            pen = penrose(A, X)
+            scl = {"AXA-A": inf["fro"], "XAX-X": ref.fro(X), "AX-herm": 1.0, "XA-herm": 1.0}
+            for key, val in pen.items():
+                if len(residuals.get(key, [])) == n_it:
+                    rep = float(residuals[key][n_it - 1])
+                    out.le(site + f":residuals[{key}][-1] is the true value for the returned X (tolerance exit)",
+                           abs(rep - val), 1e-9 * val + 1e3 * U_ * inf["kappa"] * g * scl[key] * max(m, n) + 1e-300,
+                           f"reported {rep:.3e} true {val:.3e}")
     out.nontrivial = stopped and (m != n or inf["kappa"] > 10)
     out.sample = {"shape": [m, n], "rank": inf["rank"], "kappa": inf["kappa"], "tol": tol, "iterations": n_it}
     return out
